@@ -36,6 +36,9 @@ def gen_case(r, i, tier):
         ll = ll * (10 ** r.uniform(8, 11) / max(1.0, float(np.max(np.abs(ll)))))
     if b1 <= b0:
         b1 = min(1.0, b0 + 0.1)
+    if i % 7 == 3:
+        # only the SIZE changes (the enlargement to n_final_samples at beta = 1, a thinning): the incremental weights are all equal
+        b0 = b1 = float(r.choice([1.0, b0, 0.5]))
     x = r.normal(0, 1, (n, d))
     if r.random() < 0.3:
         x = x * 1e9 + 1.1e9          # large coordinates: a float32 round trip would be visible
@@ -44,7 +47,8 @@ def gen_case(r, i, tier):
     return {"kind": kind, "ns": nsn, "width": width, "n": n, "d": d, "x": x.tolist(), "ll": ll.tolist(), "lp": lp.tolist(),
             "lq": lq.tolist(), "beta": b0, "beta_new": b1,
             # the requested size: default, any size up to twice the population, and the boundary request of an EMPTY population
-            "n_out": 0 if i % 11 == 5 else (None if r.random() < 0.5 else int(r.integers(1, 2 * n + 2))),
+            # (with an unchanged temperature and no size the call is documented to hand back the population itself: a size is always given then)
+            "n_out": 0 if i % 11 == 5 else (None if r.random() < 0.5 and b1 != b0 else int(r.integers(1, 2 * n + 2))),
             "seed": int(r.integers(1 << 30)), "touch": bool(r.random() < 0.3),
             "ll_first": (ll + r.normal(0, 1, n)).tolist()}
 
@@ -93,6 +97,8 @@ def check_cases(chk, cases):
             chk.fail("resample total", case, repr(rres), {**sig, "clause": "raise", "exc": type(rres).__name__})
             continue
         pop, out, rng = rres
+        if not rng.choices and rng.uniform_draws and rng.uniform_draws[-1]["low"] == 0:
+            rng.choices.append(rng.uniform_draws[-1])        # a uniform index draw is a selection with equal probabilities
         if not rng.choices:
             chk.fail("resample draws from the population", case, "generator.choice was not called", {**sig, "clause": "nochoice"})
             continue
